@@ -137,6 +137,7 @@ Graph::Graph(const Graph &G)
 Graph::~Graph(void) {
     delete m_cfdl;
     for (Rectangle *r : m_cgr.rs) delete r;
+    delete m_cgr.rc;
 }
 
 Graph &Graph::operator=(Graph other) {
